@@ -10,7 +10,7 @@ import (
 // parser's look-ahead and index arithmetic are sensitive to.
 var mutTokens = []string{
 	"(", ")", "(?:", "(?=", "(?!", "(?<=", "(?<!", "(?>", "(?<n>", "(?'n'", "(?<1>", "(?<n-m>", "(?<-n>", "(?P<n>", "(?P=n)", "(?(1)", "(?(n)", "(?(?=a)", "(?#", "(?i)", "(?-i)", "(?imnsx-imnsx:", "(?x)",
-	"[", "]", "[^", "[a-", "-[", "[[:alpha:]]", "[[:^digit:]", "[:", ":]", "\\p{L}", "\\P{", "\\p{IsGreek}", "\\pL", "\\p{^L}", "\\p{Lu", "\\p{gc=Lu}", "\\p{sc=Greek}",
+	"[", "]", "[^", "[a-", "-[", "[[:alpha:]]", "[[:^digit:]", "[:", ":]", "\\p{L}", "\\P{", "\\p{IsGreek}", "\\pL", "\\p{^L}", "\\p{Lu", "\\p{gc=Lu}", "\\p{sc=Greek}", "\\p{wb}", "\\p{sb}", "\\P{gcb}", "\\p{emoji}", "\\p{wb=Extend}", "\\p{Word_Break}", "\\p{Math}", "\\p{scx=Grek}", "\\p{Extended_Pictographic}", "\\p{wb=}", "\\p{=L}",
 	"{", "}", "{1", "{1,", "{1,2}", "{,2}", "{2,1}", "{99999999999}", "{2147483647}", "{2147483648}", "{0,2147483647}", "*", "+", "?", "*?", "+?", "??", "**", "+*",
 	"|", "||", "^", "$", ".", "\\", "\\", "\\A", "\\Z", "\\z", "\\b", "\\B", "\\G", "\\d", "\\D", "\\w", "\\W", "\\s", "\\S",
 	"\\1", "\\2", "\\9", "\\10", "\\99", "\\0", "\\07", "\\377", "\\400", "\\k<n>", "\\k<1>", "\\k'n'", "\\k<", "\\k{n}", "\\g1", "\\<n>",
